@@ -151,6 +151,8 @@ impl<'a> PrettyPrinter<'a> {
         scope: MarkupScope,
     ) -> ArenaDoc<'a> {
         let ctx = ctx.with_mode(Mode::Markup);
+        #[cfg(typstyle_verif)]
+        crate::verif::visit("markup", markup.to_untyped().span());
 
         if is_only_one_and(markup.to_untyped().children(), |node| {
             node.kind() == SyntaxKind::Space
